@@ -5,6 +5,7 @@ CONSTANTS
   ScratchVals = {0}
   ArgCounts = {0, 1, 2, 4, 7, 9}
   SingleCounts = {1, 7, 9}
+  HistSites = {2, 3}
   RotStep = 5
   Emit = TRUE
   Strict = FALSE
